@@ -78,6 +78,8 @@ func C07(c *core.Ctx) {
 	// P7: sessions not addressed by a message stay intact — re-association resets exactly the found node, session
 	// deletion and the SEID-0 response delete exactly the addressed session (shared with C01 R6 / C05 R3)
 	c01EndPaths(c, "P7", false)
+	// L2: the PFCP decoding library as reached from go-upf
+	c07Library(c)
 }
 
 // P1
